@@ -4,7 +4,11 @@ driver predicts the AFTER state from the BEFORE dump with the model lean/Hw/Topo
 return/errno; on EINVAL the AFTER dump must equal the BEFORE dump token for token; on success the DFS sequence of
 (gp_index, type, os_index, the four sets, gp_index of the parent) over all objects (= surviving set, sets, parents and the order
 of each of the four children lists), the allowed cpuset/nodeset, unchanged flags/filters, and preservation of every clause of
-the well-formedness oracle wfCheck.  Level merging (hwloc_filter_levels_keep_structure after the restrict) is MODELLED
+the well-formedness oracle wfCheck.  A good share of the topologies get user distances (homogeneous and mixed-type matrices), CPU
+kinds and memory attribute values before the chain (the bundled XML files bring their own); they are observed through the public API
+before the first restrict (adopted) and after the restricts (after the last call of a chain and after half of the others, partly with a
+mask, so that lazily refreshed caches stay stale across calls), and compared with the prediction of the C13/C14/C15 models composed
+in lean/Hw/Topo/RestrictSide.lean over the tree the C08 model predicts.  Level merging (hwloc_filter_levels_keep_structure after the restrict) is MODELLED
 (connectLevels + keepStructure), not compared modulo."""
 import os, shutil
 from common import *
@@ -109,20 +113,25 @@ class RestrictEngine(DiffEngine):
 
 def distinct_key(op, c):
     t = op.split()
-    if t and t[0] == "restrict":
+    if t and t[0] in ("restrict", "observe"):
         return op + "|" + c
     return "-"          # loads / Misc inserts are context, not cases
 
 
 ENGINE = RestrictEngine(
     "restrict", include_c=("topology",), stateful=True, distinct_key=distinct_key,
-    sizes={"quick": (16, 3000), "thorough": (64, 20000)},
+    sizes={"quick": (16, 4800), "thorough": (64, 20000)},
     rule="each case = one hwloc_topology_restrict(set, flags) on the current state of a loaded topology (generated synthetic "
          "strings incl. attached NUMA nodes and memory-side caches, bundled XML files with I/O objects, Misc objects inserted below "
          "random parents, user Groups (with and without dont_merge) inserted above random objects, custom allowed sets; type filters: default / all KEEP_ALL but Group / KEEP_STRUCTURE everywhere / I/O "
          "kept / random); sets: subset, superset, disjoint, infinite, straddling siblings, single PU/node, one NUMA node, all "
          "but one object/package, object sets, the other kind of set; all 32 flag words plus invalid bits; 1-4 calls "
-         "per topology; distinct = distinct (set, flags, result) triples")
+         "per topology (2-5 when side structures are followed); side structures: 0-3 user distances matrices (homogeneous over "
+         "NUMA/PU/Core/Package/caches/Groups/I-O/Misc, mixed types over 2-7 random objects, named or not, 8 kind words), 2-4 CPU kinds "
+         "(random subsets, object cpusets, halves, PUs outside the topology; forced efficiencies -1..5 with duplicates; CoreType / "
+         "Frequency infos), 0-2 registered memory attributes + 2-8 values on NUMA (80%) or other targets for them and "
+         "Bandwidth/Latency/ReadBandwidth/WriteLatency with cpuset and object initiators; public-API observation compared after the "
+         "last restrict of a chain and after half of the others; distinct = distinct (set, flags, result) triples")
 
 
 def run_engine(tier, seed):
